@@ -1,7 +1,7 @@
 //! Re-runs a recorded input against the real crate in /repo (public API only).
 use espada::card::{Card, Rank, Suit};
 use espada::evaluator::{MadeHand, Showdown};
-use espada::hand_range::CardPair;
+use espada::hand_range::{CardPair, HandRange};
 
 mod search;
 #[allow(dead_code)]
@@ -72,6 +72,18 @@ fn main() {
         }
         Some("c11-search") => {
             std::process::exit(search::c11_search(args[2].parse().unwrap(), args[3].parse().unwrap()));
+        }
+        Some("c05-search") => { std::process::exit(search::c05_search(args[2].parse().unwrap(), args[3].parse().unwrap())); }
+        Some("parse-search") => { std::process::exit(search::parse_search(args[2].parse().unwrap(), args[3].parse().unwrap(), &args[4])); }
+        Some("c05") | Some("parse") => {
+            // replay c05 <text>  |  replay parse <c09|c10> <text>   ('_' stands for a space)
+            let text = args[args.len() - 1].replace('_', " ");
+            println!("input {:?}", text);
+            let r = std::panic::catch_unwind(|| {
+                println!("as token: {:?}", text.parse::<espada::hand_range::HandRangeToken>().map(|t| t.into_iter().collect::<Vec<_>>()));
+                println!("as range: {:?}", text.parse::<HandRange>().map(|r| { let mut v: Vec<String> = r.card_pairs().iter().map(|(a, b)| format!("{}:{}", a, b)).collect(); v.sort(); v }));
+            });
+            if r.is_err() { println!("PANICKED"); std::process::exit(1); }
         }
         Some("iter") => {
             // replay iter <c02|c04|c08> <flop> <full|scopes> <ranges...>
